@@ -165,8 +165,12 @@ def checksum_special(col):
         for chunk in (7, 4096, None):
             case = {'special': path, 'chunk': chunk}
             kw = {} if chunk is None else {'read_chunksize': chunk}
-            got = fileutils.compute_file_checksum(path, **kw)
             col.case(sub, (path, chunk), True, 'procfs', case)
+            try:
+                got = fileutils.compute_file_checksum(path, **kw)
+            except Exception as e:
+                _bad(sub, 'compute_file_checksum(%r, %r) raised %r'
+                     % (path, kw, e), case)
             if got != hashlib.sha256(data).hexdigest():
                 _bad(sub, 'compute_file_checksum(%r, %r) is not the digest '
                      'of its %d bytes of content (st_size %d)'
@@ -185,11 +189,27 @@ def checksum_special(col):
             th = threading.Thread(target=feed)
             th.start()
             case = {'special': 'fifo', 'size': size}
+            got = None
             try:
                 got = fileutils.compute_file_checksum(fifo,
                                                       read_chunksize=4096)
+            except Exception as e:
+                got = e
+                # release the writer if the call never opened the FIFO
+                try:
+                    fd = os.open(fifo, os.O_RDONLY | os.O_NONBLOCK)
+                    try:
+                        while os.read(fd, 65536):
+                            pass
+                    except OSError:
+                        pass
+                    os.close(fd)
+                except OSError:
+                    pass
             finally:
-                th.join()
+                th.join(10)
+            if isinstance(got, Exception):
+                _bad(sub, 'checksum of a FIFO raised %r' % (got,), case)
             col.case(sub, ('fifo', size), True, 'fifo', case)
             if got != hashlib.sha256(data).hexdigest():
                 _bad(sub, 'checksum of %d bytes read from a FIFO is not '
